@@ -5,7 +5,7 @@ from enum import Enum
 
 import attrs
 
-from ..utils import entry_points
+from ..utils import atomic_write, entry_points
 from .exceptions import TargetError
 
 logger = logging.getLogger(__name__)
@@ -110,7 +110,7 @@ class TrackingBackend:
 
     def close(self):
         self.ops.close()
-        with open(self._get_state_path(), "w") as state_file:
+        with atomic_write(self._get_state_path()) as state_file:
             json.dump(self._tracked_jobs, state_file)
 
     @property
